@@ -115,7 +115,8 @@ PROPS["C12"] = {
             "near misses, store API and public RPC), gap scans, batch and governance-batch queries, all compared with a Go map; non-trivial = the "
             "store holds two streams of one emitter whose chain ids are decimal prefixes of each other",
     "assumptions": ["firstSeq == 0 is pinned by the repository's own test and taken as specified", "RPC handlers are called directly (no gRPC transport)"],
-    "units": [U("TestVerif_C12_Store", "./pkg/publicrpc", R(2500), R(15000, shards=16, timeout=1200))],
+    "units": [U("TestVerif_C12_Store", "./pkg/publicrpc", R(2500), R(15000, shards=16, timeout=1200)),
+              U("TestVerif_C12_FindMissing", "./cmd/guardiand", R(1500), R(10000, shards=8, timeout=1200))],
 }
 
 def extract_contracts(work):
